@@ -151,7 +151,7 @@ fn main() {
     let deadline = Instant::now() + Duration::from_secs_f64(run.budget_s);
     let threads = util::n_threads();
     // (set size, preemption bound)
-    let plan: Vec<(usize, u32)> = run.tier.pick(vec![(2, 2), (3, 1)], vec![(2, 3), (3, 2), (4, 1), (3, 3)]);
+    let plan: Vec<(usize, u32)> = run.tier.pick(vec![(2, 2), (3, 1)], vec![(2, 3), (3, 2), (4, 1), (3, 3), (2, 4), (4, 2)]);
     let mut completed: Vec<String> = Vec::new();
     let mut outcome_kinds = std::collections::BTreeSet::new();
     'plan: for (k, bound) in plan {
